@@ -449,6 +449,8 @@ def run(ctx):
     render_readonly_rule(ctx, r, mod_pred=lambda m: m.startswith("clikit.ui.help"))
     if r.n == 0:
         r.fail(ab, ab.node, "no help component", "no help component with a render() found")
+    ctx.borrow("c17", "C17-R3", "C13-R8", "'help <path>' shows the page of <path>: the help resolver removes exactly the leading help token (position 0, put back on every exit) and no "
+               "other occurrence - a sub-command that is itself called 'help' stays in the path")
     return ctx.results
 
 
